@@ -1,6 +1,6 @@
 From Coq Require Import QArith.
 From BT Require Import Base.Util Base.Float Model.RTree Model.BBIFile Model.BigWigWrite Model.BBIRead
-  Model.BedStats Proofs.Chunks Proofs.BigWigQuery Proofs.BedStatsThms Proofs.BedStatsFloat Proofs.BedStatsRows Proofs.BedStatsNames Proofs.BedStatsValues.
+  Model.BedStats Proofs.Chunks Proofs.BigWigQuery Proofs.BedStatsThms Proofs.BedStatsFloat Proofs.BedStatsRows Proofs.BedStatsNames Proofs.BedStatsValues Proofs.BedStatsPerBase.
 From BT Require Properties.C17.
 Local Open Scope N_scope.
 Check (C17.C17_stats : forall fp len ips s e vals, (0 < ips)%nat -> wf_vals len vals -> s <= e ->
@@ -51,3 +51,6 @@ Check (C17.C17_values_over_bed_last : forall s e vals, s <= e ->
   forall i, (i < N.to_nat (e - s))%nat ->
     nth_error (vob_fill s e (clip_filter s e vals)) i =
     Some (match find (covers (s + N.of_nat i)) (rev vals) with Some v => v_bits v | None => 0 end)).
+Check (C17.C17_stats_per_base : forall len s e vals, wf_vals len vals -> s <= e -> all_finite (clip_filter s e vals) ->
+  bases_of (clip_filter s e vals) = N.of_nat (covered_count vals s e) /\
+  (fl_Q (sum_of exact (clip_filter s e vals)) == sum_over (base_val vals) (region_bases s e))%Q).
